@@ -80,11 +80,12 @@ class CMSSystem(System):
     name = "cms"
     serves = ("C02", "C17", "C05", "C06", "C14", "C19")
     rule = (
-        "count-min family with width x depth in {1,2,3}^2 (plus confidence/error-rate sizings) x {table hash forcing "
-        "full-row and single-row collisions, fnv-1a, md5}; keys a..e; events add(key,n) / remove(key,n) with n in "
-        "{1,2} and removals only up to the key's true count, reload via bytes/file, clear; all sequences to the depth "
-        "bound; oracle = dict of true counts (C02), dict of last returned estimates (C17); non-trivial = state in "
-        "which two live keys share a counter."
+        'count-min family with width x depth in {1,2,3}^2 (plus confidence/error-rate sizings) x {table hash forcing '
+        'full-row and single-row collisions, fnv-1a, md5}; keys a..e; events add(key,n) / remove(key,n) with n in '
+        "{1,2} and removals only up to the key's true count (separate configurations with unrestricted removes reach negative "
+        'counters; not used for C02), an add_alt with a hash list longer than the depth (refused: nothing may change), reload via '
+        'bytes/file, clear; all sequences to the depth bound; oracle = dict of true counts (C02), dict of last returned '
+        'estimates (C17); non-trivial = state in which two live keys share a counter.'
     )
 
     def configs(self, prop, tier, seed):
